@@ -105,24 +105,42 @@ def evaluate(ctx, cases):
         # implementation: build the patch from the match's own pointer
         match = next(x for x in core.outcome(lambda: list(__import__("jsonpath").finditer(c["text"], doc)))["ok"] if list(x.parts) == parts)
         ptr = match.pointer()
-        p = JSONPatch()
-        if kind == "test":
-            p.test(ptr, copy.deepcopy(obj))
-        elif kind == "replace":
-            p.replace(ptr, {"new": True})
-        else:
-            p.remove(ptr)
-        o = core.outcome(lambda: p.apply(copy.deepcopy(doc)))
-        impl = {"ok": core.canon(o["ok"])} if "ok" in o else {"err": o["err"]}
-        if impl != m["result"]:
-            ctx.mismatch("pipeline.edit", where, impl, m["result"])
-        # property: as if the location had been addressed directly
-        try:
-            want = {"ok": core.canon(_direct(doc, parts, kind, {"new": True}))}
-        except KeyError:
-            want = {"err": "JSONPatchError"}
-        if impl != want:
-            ctx.violation("using the match's pointer as a patch target must behave as if the match's location had been addressed directly", where, impl, want)
+        # the pointer is handed over in each of the ways a caller would: the object, its text, a dict operation with its text
+        for form in ("pointer-object", "pointer-text", "dict-with-text"):
+            target = ptr if form == "pointer-object" else str(ptr)
+            if form != "pointer-object" and "\\" in target:
+                ctx.count("text-form-with-backslash-skipped")   # escape decoding is on by default: pointer text with a backslash is outside (C04)
+                continue
+            if form == "dict-with-text":
+                op = {"op": kind, "path": target}
+                if kind == "test":
+                    op["value"] = copy.deepcopy(obj)
+                elif kind == "replace":
+                    op["value"] = {"new": True}
+                built = core.outcome(lambda: JSONPatch([op]))
+                if "err" in built:
+                    ctx.violation("a patch operation addressed by the text of a match's pointer must build", {**where, "form": form}, built["err"], "a patch")
+                    continue
+                p = built["ok"]
+            else:
+                p = JSONPatch()
+                if kind == "test":
+                    p.test(target, copy.deepcopy(obj))
+                elif kind == "replace":
+                    p.replace(target, {"new": True})
+                else:
+                    p.remove(target)
+            o = core.outcome(lambda: p.apply(copy.deepcopy(doc)))
+            impl = {"ok": core.canon(o["ok"])} if "ok" in o else {"err": o["err"]}
+            if form == "pointer-object" and impl != m["result"]:
+                ctx.mismatch("pipeline.edit", where, impl, m["result"])
+            # property: as if the location had been addressed directly
+            try:
+                want = {"ok": core.canon(_direct(doc, parts, kind, {"new": True}))}
+            except KeyError:
+                want = {"err": "JSONPatchError"}
+            if impl != want:
+                ctx.violation("using the match's pointer as a patch target must behave as if the match's location had been addressed directly", {**where, "form": form}, impl, want)
 
 
 def search(ctx):
